@@ -203,6 +203,103 @@ PROPS = {
         assumptions=["GM.Spec.Url.hrefDangerous is an adequate reading of 'the way a browser does' (WHATWG URL scheme state; named references need ';')",
                      "attribute values reach the output only through the modelled emitters (emitters_complete covers string literals containing href=/src=)"],
     ),
+    "C13": dict(
+        level="proof",
+        module="GM.Props.C13",
+        claim="Kernel-checked refinement theorem: a Lean transcription of ast.BaseNode's link fields and of all seven mutators "
+              "(AppendChild, InsertBefore, InsertAfter, ReplaceChild, RemoveChild, RemoveChildren, SortChildren) refines a plain "
+              "list-of-children forest, for every finite call sequence within the property's proviso (induction over the sequence), "
+              "without panic and without exhausting loop fuel; every accessor returns what the list model says; Walk equals the textbook "
+              "DFS with skip/stop/error on the represented tree. The transcription is tied to /repo/ast/ast.go by differential runs that "
+              "compare the full observable state after each call, and the real nodes are also compared directly with an independent Go list model.",
+        note="Trusted: Lean kernel (+ propext, Classical.choice, Quot.sound), the hand transcription of ast.go (validated differentially: "
+             "exhaustive small scopes + random sequences, both inside and outside the proviso), the harness. The receiver is always passed as `self`. "
+             "ReplaceChild(self, nil, x) and nil children panic in Go (theorems replace_nil_panics / nil_child_panics); they are outside Pre.",
+        technique="Lean 4 refinement proof (pointer heap as record of field functions -> forest of child lists) + differential correspondence and spec oracle against the Go implementation",
+        components=["ast", "walk"],
+        explanation="GM.Model.AstHeap transcribes ast.go:179-371 and 483-527 statement by statement onto a heap of field functions; "
+                    "GM.Props.C13.step_refines/run_refines show that within the proviso (inserted node not the target parent or an ancestor of it, "
+                    "not the reference node, no nil dereference) every call sequence yields a heap representing exactly the forest the documented "
+                    "list meaning gives, that no Go loop fails to terminate (fuel_suffices) and that the forest stays acyclic; walk_eq_dfs/walk_after_run "
+                    "show Walk makes exactly the textbook DFS visitor calls. Components ast and walk run the same call sequences / walker scripts on real "
+                    "ast.Node values and on the compiled model and compare the complete observable state after each call; an independent Go list-of-children "
+                    "oracle checks the property itself on the implementation.",
+        assumptions=["every call passes the receiver as `self` (all goldmark call sites do)",
+                     "no concrete node type overrides the BaseNode link methods (checked by grep at build time of this package: none does)",
+                     "the walker does not mutate the tree during Walk (scripted walkers only)"],
+    ),
+    "C03": dict(
+        level="proof",
+        module="GM.Props.C03",
+        claim="Kernel-checked theorems, for every option/extension combination in safe mode and every AST satisfying the decidable tree "
+              "invariant Spec.Inv, about the Lean model of the HTML renderer: the output is accepted by the specification-side strict tokenizer, "
+              "is well nested, uses only the renderer's tag vocabulary and per-tag allowed (or data-*) attribute names, has inert text and "
+              "attribute values, the placeholder as only comment, voids in the style of the output mode (safe_wf); with XHTML it is also "
+              "token-level well-formed XML (safe_xhtml_xml); the same for any renderer state with inert footnote strings (safe_wf_rc); no renderer function panics under the invariant (inv_noPanic); option propagation "
+              "reaches every per-renderer config copy (propagation_complete). A proof is the right level because the property quantifies over all inputs.",
+        note="Trusted: Lean kernel (+ propext, Classical.choice, Quot.sound), the gmgen translator (attribute filters, entity table), the "
+             "correspondence harness and the AST dumper. Inv of parser output is monitored on every generated document (render inv), not proved: "
+             "the block/inline parsers are not modelled. Character representability in XML is the property's own proviso.",
+        technique="Lean 4 theorems over a hand-written renderer model: structural induction into an inductive grammar (WFHtml) + soundness of the "
+                  "strict tokenizer for that grammar; differential correspondence (component render); Lean-defined oracles (tokenizer + "
+                  "predicates, Inv) evaluated on the real renderer's output and the real parser's trees",
+        components=["render"],
+        tie=["render"],
+        explanation="GM.Proof.RenderWF proves in two steps that render (mkRCfg o e) t is a word of the grammar WFHtml (inert text, placeholder "
+                    "comment, void element, element around a well-formed body, concatenation; side conditions: tag in Spec.vocab, attribute names "
+                    "allowed for the tag or data-*, lexically valid, pairwise distinct, values inert) by induction over Node/List Node with a "
+                    "lemma per node kind, and that the strict tokenizer Spec.tokenize reads every grammar word back into tokens satisfying "
+                    "wellNested, vocabOK, inert, voidsOK and xmlTok. The model is tied to renderer/html/html.go, renderer/renderer.go and the "
+                    "extension renderers by component render (bytes compared on parser trees and random API-built trees); the same component "
+                    "passes every real safe-mode output through the Lean tokenizer and predicates and every real parser tree through Spec.Inv.",
+        assumptions=["Spec.Inv holds of parser output (attribute names lexically valid and distinct, no attribute repeating a name the renderer "
+                     "function writes itself, heading level 1..6, CodeSpan children are Text, table shape, code-flagged Strings inert): checked on "
+                     "every generated document, not proved",
+                     "the footnote renderer's configurable strings are inert (true of the defaults mkRCfg builds; safe_wf_rc covers any inert strings)"],
+    ),
+    "C14": dict(
+        level="proof",
+        module="GM.Props.C14",
+        claim="Kernel-checked theorems, for every sequence of Write/WriteString/WriteByte/WriteRune calls, every fault offset k, both failure modes, "
+              "destinations with and without io.StringWriter, and both the wrapped and the caller-supplied-BufWriter paths, about a Lean model of Render's "
+              "output path (renderer/renderer.go:157-173), Go's bufio.Writer and Convert: the destination's accepted bytes are a prefix of the output (exactly the "
+              "first k bytes under a short-write fault), a destination error always comes back from Render/Convert as that error, and without a fault the output "
+              "is complete with a nil error. The model is tied to the real code by replaying the exact call sequence the real renderer makes (recording BufWriter "
+              "over a real bufio.Writer over a fault-injecting writer) and comparing accepted bytes, error, underlying call count and Buffered().",
+        note="Trusted: Lean kernel (+ propext, Classical.choice, Quot.sound), the correspondence harness, the reading of go1.23 bufio.Writer. The node renderers are "
+             "abstracted as an arbitrary call list (they ignore per-write results; no renderer calls Available/Buffered).",
+        technique="Lean 4 theorems (invariant of a bufio.Writer state machine) + differential correspondence by call-sequence replay + fault-injection oracle on plain Convert",
+        components=["bufio"],
+        explanation="Theorems over all call sequences / fault offsets / modes about the Lean model GM.Model.Bufio (fault-injecting destination, bufio.Writer with sticky "
+                    "error, large-write bypass, StringWriter fast path, partial flush; Render's wrap/early-return/Flush; Convert). Component bufio converts corpus "
+                    "documents (spec.json, _test/*.txt, generated documents with outputs beyond 4096/8192 bytes and writes straddling the buffer boundary) with the "
+                    "real library into a failing writer at every offset k (small outputs) or at offsets stratified around buffer-size multiples (large outputs), "
+                    "through plain Convert and through a recording BufWriter; the model replays the recorded call sequence and must predict the outcome; the "
+                    "property's own oracle (non-nil error that errors.Is the injected one, accepted bytes a prefix of the fault-free output, no panic) is evaluated on every run.",
+        assumptions=["the destination honours the io.Writer contract of the fault model (n <= len(p); an error whenever n < len(p)); a writer returning a short count with a nil error is outside the model",
+                     "node renderers write only through their BufWriter argument and never look at a write result or at Available()/Buffered() (true of /repo by inspection when the package was written; every run re-checks it dynamically: the call sequence recorded under each fault must equal the fault-free one)"],
+    ),
+    "C15": dict(
+        level="proof",
+        module="GM.Props.C15",
+        claim="Kernel-checked theorems, for every list of heading texts and every Generate/Put sequence, about a Lean model of the id generator "
+              "(parser/parser.go ids.Generate/Put, one table per parse Context): generated ids are non-empty, fresh and pairwise distinct, the numeric-suffix "
+              "probing loop always terminates within |table|+1 probes, and a document's ids are a function of its own heading texts. The model is tied to the "
+              "Go code through the public parser.NewContext().IDs() (exhaustive small scope + random) and through a recording IDs table installed with "
+              "parser.WithIDs on real documents; presence/non-emptiness/uniqueness/history-independence are also checked directly on rendered HTML.",
+        note="Trusted: Lean kernel (+ propext, Classical.choice, Quot.sound), the correspondence harness. Presence of the id attribute on every rendered "
+             "h1-h6 is established by the document-level oracle run (it is a fact about parser+renderer, not about the generator). Proviso of the property: "
+             "no explicit attribute syntax (two headings may carry the same explicit {#id}).",
+        technique="Lean 4 theorems over a hand-written model of ids.Generate/Put; differential correspondence against the Go implementation at function and document level; HTML-level oracle",
+        components=["ids"],
+        explanation="Theorems over all heading-text lists / all Generate-Put sequences about the Lean model GM.Model.Ids (slug, fallback, suffix probing with a "
+                    "proved bound, per-document table). Component ids ties the model to parser.NewContext().IDs() (all Generate sequences of <=5 values and "
+                    "Generate/Put sequences of <=4 ops over 9 adversarial values, + random) and to the call sequence the heading parsers really make on documents "
+                    "(recording table via parser.WithIDs); the property's own oracle extracts the id of every h1-h6 from the HTML produced by plain Convert after a "
+                    "conversion history and on a fresh instance.",
+        assumptions=["callers do not mutate the []byte returned by Generate (the table keeps it as an unsafe read-only string key)",
+                     "heading texts in generated documents do not contain raw '<' (the id extractor reads start tags)"],
+    ),
 }
 
 # Properties not claimed yet, with the reason shown in MANIFEST.not_applicable.
